@@ -1,3 +1,4 @@
+mod c08b;
 mod c12b;
 mod c14;
 mod c19;
